@@ -225,10 +225,40 @@ type call struct{ Op, SQL string }
 
 type fault struct {
 	At   int    // index of the driver call (0-based) within the probe
-	Kind string // conn | stmt | cancel | commit | begin | deadlock
+	Kind string // conn | stmt | cancel | commit | begin | deadlock | gone
+	Span string `json:",omitempty"` // kind gone: the store span at whose start the client goes away
 }
 
-func (f fault) String() string { return fmt.Sprintf("%s@%d", f.Kind, f.At) }
+// Kind "gone" does not strike INSIDE a driver call like the others but BETWEEN two of
+// them: the client of the request goes away (its context is cancelled) at the start of a
+// store span (World.Span) — for the span "Commit": after the last statement of the
+// transaction has returned and before the sql COMMIT is issued — while driver call number
+// At is the next one due. database/sql reacts to the cancellation of the context given to
+// BeginTx by rolling the transaction back on a goroutine of its own; the trial waits until
+// that rollback has reached the driver (an event, not a delay) before it lets the request
+// go on, so the order "cancelled, rolled back, then Commit" is the same on every run.
+
+// stream describes a bulk sent as a STREAM (one element at a time, each result awaited):
+// the first Cut elements are sent, then — when Gone — the client goes away (request
+// context cancelled, database/sql rollback awaited as for kind "gone"), then the stream
+// ends, which is what the streamed bulk handlers do when the request context is done.
+type stream struct {
+	Cut  int
+	Gone bool
+}
+
+func (f fault) String() string {
+	if f.Span != "" {
+		return fmt.Sprintf("%s(before %s)@%d", f.Kind, f.Span, f.At)
+	}
+	return fmt.Sprintf("%s@%d", f.Kind, f.At)
+}
+
+// spanPoint: a store span started while driver call number At was the next one due.
+type spanPoint struct {
+	Name string
+	At   int
+}
 
 var errCommit = errors.New("injected: commit failed")
 
@@ -255,6 +285,13 @@ type trial struct {
 	calls  []call
 	logsB  int
 	logsA  int
+	// spans: every start of a store span with the index of the driver call that was due
+	// next (where a fault of kind "gone" can strike; name "Commit" = just before a commit)
+	spans      []spanPoint
+	goneFired  bool   // the client went away (request context cancelled) during the trial
+	goneInTx   bool   // … while a sql transaction of the request was open
+	goneRolled bool   // … and database/sql was seen rolling it back before the request went on
+	stuck      string // harness-level failure of the trial (never a verdict)
 }
 
 func countLogs(ctx context.Context, w *world.World) int {
@@ -264,6 +301,14 @@ func countLogs(ctx context.Context, w *world.World) int {
 }
 
 func runTrial(ctx context.Context, base *pgsim.DB, p probe, faults []fault, dry bool) trial {
+	return runTrialOpts(ctx, base, p, faults, dry, nil)
+}
+
+// goneWait bounds the wait for database/sql's rollback after the client went away: a
+// liveness guard of the harness (its expiry is an ENGINE error), never part of a verdict.
+const goneWait = 3 * time.Minute
+
+func runTrialOpts(ctx context.Context, base *pgsim.DB, p probe, faults []fault, dry bool, st *stream) trial {
 	pg := base.Clone()
 	w := world.Attach(pg)
 	defer w.Close()
@@ -272,9 +317,13 @@ func runTrial(ctx context.Context, base *pgsim.DB, p probe, faults []fault, dry 
 	t := trial{before: pg.DumpFiltered(false, skipGoose)}
 	t.logsB = countLogs(ctx, w)
 	type key struct{}
-	pctx := context.WithValue(ctx, key{}, true)
+	pctx, cancel := context.WithCancel(context.WithValue(ctx, key{}, true))
+	defer cancel()
 	n := 0
+	openTx := 0 // sql transactions of the request currently open at the driver
 	var mu sync.Mutex
+	var rolledSess *pgsim.Session
+	rolled := make(chan struct{}, 64)
 	w.Hook = func(hctx context.Context, s *pgsim.Session, op, sql string) error {
 		if hctx.Value(key{}) == nil {
 			return nil // the harness' own reads
@@ -283,6 +332,19 @@ func runTrial(ctx context.Context, base *pgsim.DB, p probe, faults []fault, dry 
 		idx := n
 		n++
 		t.calls = append(t.calls, call{op, sql})
+		switch op {
+		case "begin":
+			openTx++
+		case "commit":
+			openTx--
+		case "rollback":
+			openTx--
+			rolledSess = s
+			select {
+			case rolled <- struct{}{}:
+			default:
+			}
+		}
 		mu.Unlock()
 		for _, f := range faults {
 			if f.At != idx {
@@ -303,6 +365,62 @@ func runTrial(ctx context.Context, base *pgsim.DB, p probe, faults []fault, dry 
 		}
 		return nil
 	}
+	// the client goes away between two driver calls; called on the goroutine that drives
+	// the request (span start) or on the one that feeds the stream, never inside a driver call
+	clientGone := func() {
+		mu.Lock()
+		inTx := openTx > 0
+		t.goneFired = true
+		t.goneInTx = t.goneInTx || inTx
+		for len(rolled) > 0 {
+			<-rolled
+		}
+		mu.Unlock()
+		cancel()
+		if !inTx {
+			return
+		}
+		// database/sql rolls back a transaction whose BeginTx context is cancelled: wait
+		// for that rollback to reach the driver, then for the session to have left the
+		// transaction
+		select {
+		case <-rolled:
+		case <-time.After(goneWait):
+			t.stuck = "the request context was cancelled while a sql transaction of the request was open, but no rollback reached the driver"
+			return
+		}
+		mu.Lock()
+		s := rolledSess
+		mu.Unlock()
+		deadline := time.Now().Add(goneWait)
+		for s.TxOpen() {
+			if time.Now().After(deadline) {
+				t.stuck = "the session never left the transaction database/sql rolled back"
+				return
+			}
+			runtime.Gosched()
+		}
+		t.goneRolled = true
+	}
+	w.Span = func(sctx context.Context, name string) {
+		if sctx.Value(key{}) == nil {
+			return
+		}
+		mu.Lock()
+		idx := n
+		t.spans = append(t.spans, spanPoint{name, idx})
+		fired := t.goneFired
+		mu.Unlock()
+		if fired {
+			return
+		}
+		for _, f := range faults {
+			if f.Kind == "gone" && f.At == idx && f.Span == name {
+				clientGone()
+				return
+			}
+		}
+	}
 	pp := p
 	if dry {
 		pp.Ops = append([]lx.Op(nil), p.Ops...)
@@ -310,12 +428,46 @@ func runTrial(ctx context.Context, base *pgsim.DB, p probe, faults []fault, dry 
 			pp.Ops[i].DryRun = true
 		}
 	}
-	t.res = runProbe(pctx, w, pp)
+	if st != nil {
+		t.res = runStreamed(pctx, w, pp, *st, clientGone)
+	} else {
+		t.res = runProbe(pctx, w, pp)
+	}
 	w.Hook = nil
+	w.Span = nil
 	t.after = pg.DumpFiltered(false, skipGoose)
 	t.logsA = countLogs(ctx, w)
 	t.events = rec.events
 	return t
+}
+
+// runStreamed sends the probe (a bulk) as a stream cut after st.Cut elements.
+func runStreamed(ctx context.Context, w *world.World, p probe, st stream, clientGone func()) result {
+	c, err := w.Sys.GetLedgerController(ctx, "l1")
+	if err != nil {
+		return result{Err: err, Class: lx.Classify(err)}
+	}
+	var onCut func()
+	if st.Gone {
+		onCut = clientGone
+	}
+	bo, err := pimport.RunBulkStreamed(ctx, c, p.Kind == "atomic-bulk", p.Ops, st.Cut, onCut)
+	if err != nil {
+		return result{Err: err, Class: "harness"}
+	}
+	r := result{OK: bo.AllOK, Err: bo.RunErr}
+	for _, e := range bo.ElemErr {
+		if e == nil {
+			r.Applied++
+		} else if r.Err == nil {
+			r.Err = e
+		}
+	}
+	if bo.RunErr != nil {
+		r.Applied = 0
+	}
+	r.Class = lx.Classify(r.Err)
+	return r
 }
 
 // ---------- C07 ----------
